@@ -113,10 +113,12 @@ const (
 )
 
 type negServer struct {
-	m      map[string]string
-	mu     sync.Mutex
-	seen   []string
+	m       map[string]string
+	mu      sync.Mutex
+	seen    []string
 	variant int
+	// after is called (if set) after the reply to a client element was written; conn is the current (possibly TLS) connection
+	after func(kind string, conn net.Conn)
 }
 
 func (sv *negServer) rec(kind string, secure bool) {
@@ -165,7 +167,12 @@ func (sv *negServer) serve(conn net.Conn) {
 	secure, tlsDone, authDone := false, false, false
 	w := func(s string) { conn.Write([]byte(s)) }
 	undecodable := func() { w("<unknown xmlns='no:such:ns'/>") }
+	lastKind := ""
 	for {
+		if sv.after != nil && lastKind != "" {
+			sv.after(lastKind, conn)
+		}
+		lastKind = ""
 		tok, err := dec.Token()
 		if err != nil {
 			return
@@ -178,6 +185,7 @@ func (sv *negServer) serve(conn net.Conn) {
 			}
 			continue
 		}
+		lastKind = se.Name.Local
 		switch se.Name.Local {
 		case "stream":
 			sv.rec("open", secure)
@@ -280,6 +288,7 @@ func (sv *negServer) serve(conn net.Conn) {
 				return
 			}
 			if iq.Bind != nil {
+				lastKind = "bind"
 				sv.rec("bind", secure)
 				jid := unhx(m["jid"])
 				switch m["bind"] {
@@ -345,8 +354,14 @@ func (sv *negServer) serve(conn net.Conn) {
 				}
 			}
 		default:
+			id := ""
+			for _, a := range se.Attr {
+				if a.Name.Local == "id" {
+					id = a.Value
+				}
+			}
 			dec.Skip()
-			sv.rec("other-"+se.Name.Local, secure)
+			sv.rec("other-"+se.Name.Local+"#"+id, secure)
 		}
 	}
 }
